@@ -26,6 +26,8 @@ Good(e) ==
                 [] e.op \in {"closeset", "close-again"} -> e.same = "yes"
                 [] e.op \in {"postread", "postaccept"} -> e.res = "eof" /\ e.got = e.queued
                 [] e.op \in {"postwrite", "posthandshake"} -> e.res # "ok"
+                \* a silent peer, no Close: every call ends by itself (ret = yes above) with an error
+                [] e.op \in {"silent-handshake", "silent-write", "silent-read"} -> e.res # "ok"
                 [] e.op = "isclosed" -> e.res = "yes"
                 [] e.op = "accept-blocked" -> e.res = "eof"
                 [] e.op = "serve-returns" -> e.res = "ok"
